@@ -71,6 +71,11 @@ pub fn stall_outcome(c: &StallCase) -> Outcome {
     if c.stallers.iter().any(|s| s.then == Then::Invalid) {
         o.class("complete-but-invalid-handshake");
     }
+    o.class(match c.stallers.first().map(|s| s.offset).unwrap_or(0) % 3 {
+        0 => "monitor-installed-before-bind",
+        1 => "monitor-installed-after-bind",
+        _ => "monitor-replaced-after-bind",
+    });
     if c.stallers.iter().any(|s| s.then == Then::Abort) {
         o.class("gone-before-accept");
     }
@@ -88,7 +93,10 @@ pub fn stall_outcome(c: &StallCase) -> Outcome {
             let who = kind.name();
             let mut f: Vec<Failure> = vec![];
             let mut s = AnySocket::new(kind, None);
-            let mut monitor = realnet::sock_monitor(&mut s);
+            // when the monitor is installed (it may be installed or replaced at any time): before
+            // the bind, only after it, or before it and replaced after it
+            let monitor_mode = c.stallers.first().map(|s| s.offset).unwrap_or(0) % 3;
+            let mut monitor = if monitor_mode != 1 { Some(realnet::sock_monitor(&mut s)) } else { None };
             let ep = match realnet::sock_bind(&mut s, &c.transport.bind_text()).await {
                 Ok(e) => e.to_string(),
                 Err(e) => {
@@ -96,6 +104,10 @@ pub fn stall_outcome(c: &StallCase) -> Outcome {
                     return f;
                 }
             };
+            if monitor_mode != 0 {
+                monitor = Some(realnet::sock_monitor(&mut s));
+            }
+            let mut monitor = monitor.expect("monitor installed");
             let peer_type = kind.a_compatible_peer();
             let mut accepted = 0usize;
             let mut failed = 0usize;
